@@ -51,7 +51,9 @@ func (bc *bufferedConn) Write(b []byte) (int, error) {
 }
 
 func (bc *bufferedConn) writeProcess() {
-	pktBuf := make([]byte, receiveMTU)
+	// Records in the buffer are framed packets: the payload (up to receiveMTU)
+	// plus the two-byte length header.
+	pktBuf := make([]byte, receiveMTU+streamingPacketHeaderLen)
 	for atomic.LoadInt32(&bc.closed) == 0 {
 		n, err := bc.buf.Read(pktBuf)
 		if errors.Is(err, io.EOF) {
